@@ -4,6 +4,7 @@ import (
 	"crypto/tls"
 	"fmt"
 	"net"
+	"sync"
 	"time"
 
 	"github.com/plgd-dev/go-coap/v3/message"
@@ -48,15 +49,13 @@ func setupCSMExchangeHandler(cfg *client.Config, cc *client.Conn) chan struct{} 
 	}
 
 	csmExchangeDone := make(chan struct{})
+	// the handler runs on a goroutine of its own for every signalling message: several CSM messages of the peer may
+	// be handled at once, and only one of them may close the channel
+	var once sync.Once
 	cc.SetTCPSignalReceivedHandler(func(code codes.Code) {
 		if code == codes.CSM {
-			select {
-			case <-csmExchangeDone:
-				// already closed
-			default:
-				verifhook.Yield("tcp.csmExchange.beforeClose", 0)
-				close(csmExchangeDone)
-			}
+			verifhook.Yield("tcp.csmExchange.beforeClose", 0)
+			once.Do(func() { close(csmExchangeDone) })
 		}
 	})
 	return csmExchangeDone
